@@ -14,6 +14,7 @@ import (
 	"github.com/inbucket/inbucket/v3/pkg/config"
 	"github.com/inbucket/inbucket/v3/pkg/policy"
 	"github.com/inbucket/inbucket/v3/pkg/stringutil"
+	"verifharness/smtpd"
 	"verifharness/vh"
 )
 
@@ -129,6 +130,20 @@ func gen(g *vh.Gen) {
 	}
 }
 
+// genSessions: whole SMTP dialogues under policy-heavy configurations (several recipients per
+// transaction naming the same mailbox through different domains, small recipient limits).
+func genSessions(g *vh.Gen) {
+	o := smtpd.Opts{Garbage: 0.03, MaxBody: 40}
+	for i := 0; i < g.N(300, 10000); i++ {
+		c, pool := smtpd.GenCfg(g, o)
+		if g.Chance(0.6) {
+			c.Naming = "local"
+		}
+		stream := smtpd.GenDialogue(g, c, pool[:2+g.Intn(3)], o)
+		g.Emit("smtp", append(c.Fields(), vh.H(stream))...)
+	}
+}
+
 func setenv(k, v string) {
 	if v == "" {
 		os.Unsetenv(k)
@@ -139,6 +154,8 @@ func setenv(k, v string) {
 
 func exec(kind string, in []string) []string {
 	switch kind {
+	case "smtp":
+		return smtpd.Exec(in)
 	case "wild":
 		return []string{vh.B(stringutil.MatchWithWildcards(vh.US(in[0]), vh.US(in[1])))}
 	case "pol":
@@ -160,4 +177,4 @@ func exec(kind string, in []string) []string {
 	return []string{"UNKNOWN-KIND"}
 }
 
-func main() { vh.Main(gen, exec) }
+func main() { vh.Main(func(g *vh.Gen) { gen(g); genSessions(g) }, exec) }
